@@ -1008,6 +1008,9 @@ func (t *Terms) callTerm(ci ssa.CallInstruction) string {
 	if argOnly {
 		return name + "(" + strings.Join(as, ",") + ")"
 	}
+	if readerStd[n] {
+		return fmt.Sprintf("%s(%s)@%d", name, strings.Join(as, ","), t.callOrd[ci])
+	}
 	if f := callee(ci); f != nil && t.w.InRepo(f) && t.purity(f) == purReadOnly {
 		return fmt.Sprintf("%s(%s)@%d", name, strings.Join(as, ","), t.callOrd[ci])
 	}
@@ -1256,4 +1259,13 @@ func eqTerm(a, b string) string {
 		a, b = b, a
 	}
 	return "(" + a + " == " + b + ")"
+}
+
+// addOne returns the term of x+1 in the normal form used by compute.
+func addOne(x string) string {
+	if m := addK.FindStringSubmatch(x); m != nil {
+		p, _ := strconv.ParseInt(m[2], 10, 64)
+		return fmt.Sprintf("%s+%d", m[1], p+1)
+	}
+	return x + "+1"
 }
